@@ -64,7 +64,17 @@ func (r *Reader) readIloc(b *box) (err error) {
 		ilb.items = make([]ilocEntry, 0, ilb.count)
 	}
 
-	for i := 0; i < len(buf); {
+	// size in bytes of the fixed part of an entry and of its first extent
+	entrySize := 2 + 2 + int(ilb.baseOffsetSize) + 2
+	if b.flags.version() > 0 {
+		entrySize += 2
+	}
+	extentSize := int(ilb.offsetSize) + int(ilb.lengthSize)
+	if !validIlocFieldSize(ilb.offsetSize) || !validIlocFieldSize(ilb.lengthSize) || !validIlocFieldSize(ilb.baseOffsetSize) {
+		return ErrBufLength
+	}
+
+	for i := 0; i+entrySize <= len(buf); {
 		var ent ilocEntry
 		ent.id = itemID(bmffEndian.Uint16(buf[i : i+2]))
 		i += 2
@@ -85,6 +95,9 @@ func (r *Reader) readIloc(b *box) (err error) {
 		ent.count = bmffEndian.Uint16(buf[i : i+2])
 		i += 2
 
+		if ent.count > 0 && i+extentSize > len(buf) {
+			return ErrBufLength
+		}
 		for j := 0; j < int(ent.count); j++ {
 			var ol offsetLength
 			if j == 0 {
@@ -134,6 +147,11 @@ func readIlocHeader(b *box) (ilb itemLocationBox, err error) {
 	return ilb, err
 }
 
+// validIlocFieldSize reports whether size is a field size uintN can read.
+func validIlocFieldSize(size uint8) bool {
+	return size == 0 || size == 1 || size == 2 || size == 4 || size == 8
+}
+
 func uintN(size uint8, buf []byte) uint64 {
 	switch size {
 	case 1:
@@ -145,6 +163,7 @@ func uintN(size uint8, buf []byte) uint64 {
 	case 8:
 		return bmffEndian.Uint64(buf[:8])
 	default:
-		panic("error here")
+		// 0 means the field is absent; other sizes are not defined by ISO/IEC 14496-12
+		return 0
 	}
 }
